@@ -10,34 +10,52 @@ META = {
     "title": "Dense and readable generators emit code that means the same tree",
     "level": "proof",
     "design_ref": "DESIGN.md section 6 / C02",
-    "technique": "Coq theorems over a Gallina model of the dense generator's push automaton and of the "
-                 "parenthesisation rules, parameterised by tables dumped from the compiled Rust code and re-checked "
-                 "by reflection on every run; reference lexer / precedence parser written from the Lua manual as the "
-                 "specification; model tied to the code by differential runs evaluated inside Coq",
-    "level_text": "Machine-checked (Coq 8.16 kernel): for every table satisfying a decidable condition, the modelled push "
-                  "automaton never fuses adjacent tokens at any column span, and the modelled printer's parentheses make "
-                  "a reference precedence parser read back every operator tree; the conditions are re-evaluated on the "
-                  "tables dumped from the current Rust code on every run. The push sequence dense.rs performs is tied "
-                  "to the model byte for byte on generated trees; the readable generator and the statement level are "
-                  "covered by correspondence only (reference lexer + darklua's own parser).",
-    "level_note": "Trusted: Coq kernel + vm_compute; Model/Lexer.v and the reference parser of Model/Precedence.v "
-                  "(specifications written from the Lua 5.1 manual / Luau lexer); the harness walker items.rs (second "
-                  "transcription of dense.rs, checked against the real output on every run); darklua's own parser for "
-                  "the tree comparison stream.",
-    "trusted_base": ["Coq 8.16.1 kernel, vm_compute", "Model/Lexer.v (reference lexer, specification)",
-                     "Model/Precedence.v reference parser (specification)",
-                     "harness/crates/c02 (walker, generators of trees, hex transport)",
+    "technique": "Coq theorems over Gallina models of the dense generator's push automaton (Model/DenseGen.v) and of the "
+                 "parenthesisation rules (Model/Precedence.v), parameterised by tables dumped from the compiled Rust code "
+                 "(should_break_with_space 128x128, the five break_* predicates, the needs-parentheses predicates over all "
+                 "operator pairs) whose decidable conditions are re-evaluated by vm_compute on every run; reference lexer and "
+                 "reference precedence-climbing parser written from the Lua manual / Luau lexer as the specification; models "
+                 "tied to the code by differential streams evaluated by the extracted checker (all cases) and inside coqc "
+                 "(sample)",
+    "level_text": "Machine-checked (Coq 8.16 kernel, no axioms). (1) no_fusion: for every table with spacing_ok = true, every "
+                  "push list inside the stated adjacency universe and EVERY column span, the text written by the modelled "
+                  "automaton lexes (reference lexer) exactly as the canonical rendering of the pushes; no_fusion_stream: the "
+                  "same from a per-list decidable hypothesis that is checked on every real push list. (2) paren_roundtrip: "
+                  "for every predicate table with prec_ok = true and every operator tree of any depth, the reference parser "
+                  "reads the written tokens back as the same tree with the generator's parentheses explicit (same operator "
+                  "nesting). (3) merge_char glues '(' to the callee at every span. spacing_ok/prec_ok are re-proved on the "
+                  "tables dumped from the current code on every run. The push sequence of dense.rs is tied to the model byte "
+                  "for byte on generated trees; the readable generator, the Luau type grammar and the statement level "
+                  "(';' insertion) are covered by correspondence only (reference lexer, reference parser, a token-level "
+                  "criterion for the mandatory ';', darklua's own parser). The unrestricted statements are refuted in Coq "
+                  "by the recorded findings (number nodes holding a negative value; ';' after a generator-parenthesised "
+                  "last operand).",
+    "level_note": "Trusted: Coq kernel + vm_compute; OCaml extraction of the checker (cross-checked against vm_compute on a "
+                  "sample every run); Model/Lexer.v and the reference parser in Model/Precedence.v (specifications); the "
+                  "harness walker items.rs (second transcription of dense.rs: which push variant is used for which token; "
+                  "checked against the real output on every run); the adjacency universe (Model/C02Spec.v excluded_str, "
+                  "consistent) is an assumption about which token pairs a tree can make adjacent, checked on every real "
+                  "push list; darklua's own parser only for the tree-equality stream.",
+    "trusted_base": ["Coq 8.16.1 kernel, vm_compute", "OCaml extraction (ExtrOcamlBasic) + vlib/c02_driver.ml",
+                     "Model/Lexer.v (reference lexer, specification)",
+                     "Model/Precedence.v subexpr/parse_expr (reference parser, specification)",
+                     "harness/crates/c02 (walker items.rs, tree generators, hex transport)",
                      "darklua_core::Parser only for the tree-equality stream"],
     "allowed_axioms": [],
     "rule": "seeded random trees (depth 1..4) built through darklua's node constructors over adversarial name/number/"
-            "string pools, each at column spans {0,1,2,7,80,120,10^9}; exhaustive ordered pairs of token samples made "
-            "adjacent in a tree; exhaustive operator pairs and triples; a case is non-trivial when the dense output "
-            "differs from the plain concatenation of the pushed texts (a separator or line break was inserted) or "
-            "parentheses were inserted; distinct by (push list, span)",
+            "string pools, each at column spans {0,1,2,7,80,120,10^9}; exhaustive ordered pairs of 35 expression samples "
+            "(one per token class) in every syntactic position at all spans; all operator trees with <= 2 operator nodes, "
+            "triples (sampled in quick, exhaustive in thorough), deeper random trees; statement pairs; a case is "
+            "non-trivial when the dense output differs from the plain concatenation of the pushed texts (a separator or "
+            "line break was inserted), when the generator inserted a parenthesis, or when the second statement starts "
+            "with '('; distinct by (push list or tree, span)",
     "assumptions": ["Lua 5.1 / Luau lexical rules are as written in Model/Lexer.v (numbers: Luau's greedy readNumber run)",
                     "operator precedence and associativity are as in the Lua 5.1 manual section 2.5.6 plus Luau's // "
-                    "(Model/Precedence.v reference parser)",
-                    "interpolated strings are lexed atomically (tokens inside {} are not checked by the reference lexer)"],
+                    "(Model/Precedence.v lprio/rprio)",
+                    "adjacency universe: a push that ends inside a number starts with a digit and ends with a digit or "
+                    "letter; after an operator symbol no push starts with '='; '/' is not followed by '/', ':' not by "
+                    "':', '-' not by '>' (Model/C02Spec.v excluded_str); evaluated on every real push list",
+                    "tokens are ASCII (the generators escape everything else)"],
 }
 
 PREAMBLE = """From DL Require Import Lib.Bytes Model.Lexer Model.DenseGen Model.C02Check Generated.C02Tables.
@@ -283,13 +301,17 @@ def run_stream(ctx, name, rows, exe, vm_sample):
                           key="hyp:%s" % r["ref"][:80], found_input=False)
         else:
             model_only.append((r, diag))
-    for r in reparse_bad[:3]:
+    # cases of the recorded boundary defect first, then at most three others
+    reparse_report = [r for r in reparse_bad if "+wrapped-last-operand" in r["tag"]][:2] + \
+                     [r for r in reparse_bad if "+wrapped-last-operand" not in r["tag"]][:3]
+    for r in reparse_report:
         which = "dense" if r["dflag"] not in ("ok", "okp") else "readable"
         ctx.violation("%s generator: darklua's parser does not read back the same tree (%s) at span %d" % (
             which, r["dflag"] if which == "dense" else r["rflag"], r["span"]),
             {"stream": name, "span": r["span"], "dense": text_of(r["dense"]), "readable": text_of(r["readable"]),
              "tag": r["tag"]},
-            key="reparse-%s:%s:%d" % (which, r["ref"][:80], r["span"]))
+            key=("semicolon:generator-parenthesised-last-operand" if "+wrapped-last-operand" in r["tag"]
+                 else "reparse-%s:%s:%d" % (which, r["ref"][:80], r["span"])))
     return model_only
 
 
